@@ -120,9 +120,10 @@ def specOk : GateSpecification → Bool
         | .variable a => s.qubits.contains a
         | _ => false
 
-/-- an immediate CALL argument as `parse_call_immediate` builds it: finite components (either sign) -/
+/-- an immediate CALL argument as `parse_call_immediate` builds it: finite components of either sign, never
+`-0.0` (negation is `0 - x`, and sums of zeros of mixed sign are `+0.0`) -/
 def callArgOk : UnresolvedCallArgument → Bool
-  | .immediate z => realLitOk z.re && realLitOk z.im
+  | .immediate z => plainBits z.re && plainBits z.im
   | _ => true
 
 mutual
@@ -229,6 +230,25 @@ def canonInstrs : List Instruction → List Instruction
   | i :: rest => canonInstr i :: canonInstrs rest
 end
 
+/-! ## CALL: no real immediate directly followed by an argument named `i` -/
+
+/-- is the previous argument a real-valued immediate (printed ending in a number token)? -/
+def isRealImm : Option UnresolvedCallArgument → Bool
+  | some (.immediate p) => fZero p.im
+  | _ => false
+
+/-- an identifier / memory reference argument named `i` -/
+def namedI : UnresolvedCallArgument → Bool
+  | .identifier s => s == "i"
+  | .memoryReference r => r.name == "i"
+  | _ => false
+
+/-- no real-valued immediate is directly followed by an argument named `i` (known finding
+C02/number-then-name-i: `2.5 i` would be read back as `2.5i`) -/
+def chainOk : Option UnresolvedCallArgument → List UnresolvedCallArgument → Bool
+  | _, [] => true
+  | prev, a :: rest => !(isRealImm prev && namedI a) && chainOk (some a) rest
+
 /-! ## the proved subset -/
 
 /-- instruction kinds whose round trip is proved in `QV.C02.Props` (`C02_roundtrip_partial`) -/
@@ -239,6 +259,7 @@ def provedKind : Instruction → Bool
   | .gate _ | .setFrequency _ | .setPhase _ | .setScale _ | .shiftFrequency _ | .shiftPhase _
   | .swapPhases _ | .delay _ | .capture _ | .pulse _ => true
   | .rawCapture r => r.memoryReference.name != "i"
+  | .call c => chainOk none c.arguments
   | _ => false
 
 end QV.C02
